@@ -13,6 +13,7 @@ pub mod c12;
 pub mod c13;
 pub mod c14;
 pub mod c15;
+pub mod c16;
 pub mod c18;
 pub mod c19;
 
@@ -31,6 +32,7 @@ pub fn dispatch(engine: &str, sh: &mut Shard) -> bool {
         "c13" => c13::run(sh),
         "c14" => c14::run(sh),
         "c15" => c15::run(sh),
+        "c16" => c16::run(sh),
         "c18" => c18::run(sh),
         "c19" => c19::run(sh),
         _ => return false,
